@@ -31,6 +31,8 @@ type c11Result struct {
 	TestName string   `json:"test_name"`
 	Created  []string `json:"created"`
 	Failed   bool     `json:"failed"`
+	Phase    int      `json:"phase,omitempty"`
+	Updated  bool     `json:"updated,omitempty"`
 }
 
 type c11Run struct {
@@ -47,7 +49,10 @@ func c11WriteModule(root string) error {
 	if err := e3WriteModule(root); err != nil { // go.mod / go.sum (the C08 sources are removed below)
 		return err
 	}
-	for _, f := range []string{"a_test.go", "b_test.go", "main_test.go", "interp.go"} {
+	for _, f := range []string{"main_test.go", "interp.go"} {
+		os.Remove(filepath.Join(root, f))
+	}
+	for f := range e3Files {
 		os.Remove(filepath.Join(root, f))
 	}
 	os.MkdirAll(filepath.Join(root, "c11lib"), 0o755)
@@ -102,7 +107,13 @@ func c11Expected(pkgDir, absDir string, r c11Result) string {
 		}
 	}
 	if standalone {
-		base += "_1"
+		if cb.Shape == "config-reused" && (cb.API == "sjson" || cb.Ext != "") {
+			// the Config's earlier MatchStandaloneJSON call of the same test took _1 of the same file pattern
+			// (with an explicit Ext both standalone entry points share <name>_%d.snap<Ext>)
+			base += "_2"
+		} else {
+			base += "_1"
+		}
 	}
 	ext := cb.Ext
 	if ext == "" && cb.API == "sjson" {
@@ -113,7 +124,7 @@ func c11Expected(pkgDir, absDir string, r c11Result) string {
 
 func runC11(tier, scratch, replay string, nworkers int) *merged {
 	m := newMerged()
-	m.rule = "Dir {unset, d, d/e, absolute} x Filename x Ext x 5 APIs x 8 call shapes (direct, closure, helper in the same / another test file, in a non-test file, in another package, subtest, goroutine) looped inside the real test binary, " +
+	m.rule = "Dir {unset, d, d/e, absolute} x Filename x Ext x 5 APIs x 12 call shapes (direct, closure, helper in the same / another test file, in a non-test file, in another package, 40/70 frames deep, subtest, goroutine, through a Config used before) looped inside the real test binary (executed twice: create, then update with a changed value), " +
 		"x package depth {root, sub, sub/deep} x build {plain, -trimpath flag, -trimpath via GOFLAGS} x cwd changed (plain) x GOROOT set/unset; non-trivial = distinct (run, combination) pairs"
 	m.assumptions = append(m.assumptions, "with -trimpath the binary is run from its package directory, as go test does (the documented limitation -trimpath + foreign cwd is excluded)")
 	root := filepath.Join(scratch, "c11", "e3mod")
@@ -220,7 +231,7 @@ func runC11(tier, scratch, replay string, nworkers int) *merged {
 				pkgDir := filepath.Join(root, depth)
 				outFile := filepath.Join(scratch, "c11", fmt.Sprintf("results-%s-%d.jsonl", strings.ReplaceAll(depth, "/", "_"), ri))
 				os.Remove(outFile)
-				cmd := exec.Command("timeout", "-k", "5", "300", bins[bkey{r.Depth, r.Build}], "-test.count", "1", "-test.timeout", "240s", "-test.run", "^TestC11$")
+				cmd := exec.Command("timeout", "-k", "5", "300", bins[bkey{r.Depth, r.Build}], "-test.count", "2", "-test.timeout", "280s", "-test.run", "^TestC11$")
 				cmd.Dir = pkgDir
 				env := []string{"PATH=" + os.Getenv("PATH"), "HOME=" + os.Getenv("HOME"), "NO_COLOR=1", "C11_OUT=" + outFile, "C11_ROOT=" + filepath.Join(scratch, "c11"), "C11_ABS=" + absDir}
 				if r.Chdir {
@@ -265,8 +276,19 @@ func runC11(tier, scratch, replay string, nworkers int) *merged {
 					idx := res.Combo.Idx
 					cs.Combo = &idx
 					cb, _ := json.Marshal(cs)
-					m.set("nontrivial")[hash64(string(cb))] = struct{}{}
+					m.set("nontrivial")[hash64(string(cb), fmt.Sprint(res.Phase))] = struct{}{}
 					want := c11Expected(pkgDir, absDir, res)
+					if res.Phase == 2 {
+						// the update execution: the changed value lands in the file of the first execution, nothing new appears anywhere
+						if res.Updated && len(res.Created) == 0 && !res.Failed {
+							m.outcomes["updated-in-place"]++
+							continue
+						}
+						m.outcomes["update-mislocated"]++
+						m.viol(class, fmt.Sprintf("run %+v, %s %s Dir=%q Filename=%q Ext=%q in %s: second execution with a changed value and Update(true): file %s holds the new value = %v, new files %v (test failed=%v)",
+							r, res.Combo.API, res.Combo.Shape, res.Combo.Dir, res.Combo.Filename, res.Combo.Ext, res.TestName, want, res.Updated, res.Created, res.Failed), cs)
+						continue
+					}
 					m.set("states")[hash64(want, r.Build)] = struct{}{}
 					if len(m.samples) < 5 {
 						sb, _ := json.Marshal(map[string]any{"run": r, "result": res, "expected": want})
